@@ -194,15 +194,32 @@ def sanitizer_key(stderr_text):
     if m5:
         kind = 'assert:' + m5.group(1)[:80]
     frame = None
-    frames = [(fm.group(1), fm.group(2)) for fm in FRAME_RE.finditer(stderr_text)]
+    # only the first stack of the report itself (stderr may hold earlier, informational UBSan output)
+    body = stderr_text
+    for marker in ('ERROR: AddressSanitizer', 'WARNING: ThreadSanitizer'):
+        i = body.find(marker)
+        if i >= 0:
+            body = body[i:]
+            j = body.find('\n\n')
+            if j > 0:
+                body = body[:j]
+            break
+    frames = [(fm.group(1), fm.group(2)) for fm in FRAME_RE.finditer(body)]
     if not frames:
-        frames = [(fm.group(1), fm.group(2)) for fm in TSAN_FRAME_RE.finditer(stderr_text)]
+        frames = [(fm.group(1), fm.group(2)) for fm in TSAN_FRAME_RE.finditer(body)]
     for fn, path in frames:
         if '/include/osmium/' in path:
             fn = re.sub(r'<.*>', '<>', fn)
             fn = re.sub(r'\(.*', '', fn)
             frame = fn + '@' + os.path.basename(path)
             break
+    if frame is None:
+        for fn, path in frames:
+            if fn.startswith('trv::'):
+                frame = re.sub(r'\(.*', '', fn) + ' (traversal of a delivered object left its item)'
+                if 'traverse_tags' in body:
+                    frame = 'trv::traverse_tags (traversal of a delivered object left its item)'
+                break
     return (kind or 'crash') + (' in ' + frame if frame else '')
 
 
